@@ -106,13 +106,13 @@ PessimisticLock::LockSIX()  //
 void
 PessimisticLock::UnlockS()
 {
-  lock_.fetch_sub(kSLock, kRelaxed);
+  lock_.fetch_sub(kSLock, kRelease);
 }
 
 void
 PessimisticLock::UnlockSIX()
 {
-  lock_.fetch_xor(kSIXLock, kRelaxed);
+  lock_.fetch_xor(kSIXLock, kRelease);
 }
 
 void
@@ -181,7 +181,7 @@ PessimisticLock::SIXGuard::UpgradeToX()  //
       [](std::atomic_uint64_t *lock) -> bool {
         auto cur = lock->load(kRelaxed);
         DBGROUP_VERIF_POINT(kAdmitUpgrade, lock);
-        return cur == kSIXLock && lock->compare_exchange_weak(cur, kXLock, kRelaxed, kRelaxed);
+        return cur == kSIXLock && lock->compare_exchange_weak(cur, kXLock, kAcquire, kRelaxed);
       },
       &(dest->lock_));
 
